@@ -6,6 +6,7 @@ CONSTANTS
   MethodExcluded = FALSE
   PurgeEvictsLive = FALSE
   ExpiresIgnored = FALSE
+  RejectUnpins = FALSE
   MaxOps = 12
   MaxTimeouts = 1
 INVARIANTS EmitInv
